@@ -55,6 +55,8 @@ def run(P: Program, R: Report, tier: str) -> None:
             if isinstance(par, ast.Call) and call_name(par) == CLOSURE and u in par.args[1:2]:
                 ok = True
                 asg = pm.get(par)
+                while asg is not None and not isinstance(asg, ast.stmt):
+                    asg = pm.get(asg)
                 if isinstance(asg, ast.Assign) and isinstance(asg.targets[0], ast.Name):
                     closure_vars.add(asg.targets[0].id)
             if isinstance(par, ast.keyword) and par.arg in ("node_ids", "nodes_to_keep"):
@@ -90,53 +92,91 @@ def run(P: Program, R: Report, tier: str) -> None:
                 g = pm.get(pm.get(sub[0]))
                 copied = any(isinstance(c, ast.Call) and call_name(c) == "copy" and sub[0] in list(ast.walk(c)) for c in ast.walk(f.node))
                 R.check(copied, "R15.2", f, sub[0], "the subgraph is copied (the tracks graph is left alone)", "", via="syntax")
-            # segmentation: boolean membership mask of the closed set
-            writes = [s for s in ast.walk(f.node) if isinstance(s, ast.Assign) and isinstance(s.targets[0], ast.Subscript) and norm(s.targets[0].value) == "z"]
-            filt = [s for s in writes if norm(s.targets[0].slice) == "slices"]
-            R.check(len(filt) == 1, "R15.2", f, f.node, "one chunk-wise filtered write of the segmentation", f"{len(filt)}", via="syntax")
-            for s in filt:
-                val = s.value
-                if isinstance(val, ast.Name):
-                    d = [x for x in ast.walk(f.node) if isinstance(x, ast.Assign) and isinstance(x.targets[0], ast.Name) and x.targets[0].id == val.id]
-                    val = d[0].value if len(d) == 1 else val
-                txt = norm(val)
+            # segmentation: boolean membership mask of the closed set (in the exporter or in a helper it calls)
+            def mask_sites(fn, closed, depth=0):
+                out = []
+                for st in ast.walk(fn.node):
+                    if isinstance(st, ast.Assign) and isinstance(st.targets[0], ast.Subscript) and isinstance(st.targets[0].value, ast.Name):
+                        val = st.value
+                        if isinstance(val, ast.Name):
+                            d = [x for x in ast.walk(fn.node) if isinstance(x, ast.Assign) and isinstance(x.targets[0], ast.Name) and x.targets[0].id == val.id]
+                            val = d[0].value if len(d) == 1 else val
+                        if isinstance(val, ast.Call) and call_name(val) in ("where", "minimum", "take", "choose") or "isin(" in norm(val) or (isinstance(val, ast.Subscript) and "[" in norm(val) and "block" in norm(val)):
+                            out.append((fn, st, val, closed))
+                if depth < 2:
+                    for c in ast.walk(fn.node):
+                        if isinstance(c, ast.Call) and isinstance(c.func, ast.Name):
+                            q = P.resolve_name(fn.module, c.func.id)
+                            callee = P.functions.get(q) if q else None
+                            if callee is None or callee is fn:
+                                continue
+                            for pn, a in list(zip(callee.params, c.args, strict=False)) + [(k.arg, k.value) for k in c.keywords if k.arg]:
+                                if isinstance(a, ast.Name) and a.id == closed:
+                                    out += mask_sites(callee, pn, depth + 1)
+                return out
+
+            sites = [x for x in mask_sites(f, cv) if "z[:]" not in norm(x[1])]
+            if not sites:
+                R.undecided("R15.2", f, f.node, "the exported segmentation is filtered chunk-wise through a membership mask", "no filtered write found")
+            for fn, st, val, closed in sites:
                 mask_ok = False
                 if isinstance(val, ast.Call) and call_name(val) == "where" and len(val.args) == 3 and norm(val.args[2]) == "0":
                     m = val.args[0]
                     if isinstance(m, ast.Name):
-                        d = [x for x in ast.walk(f.node) if isinstance(x, ast.Assign) and isinstance(x.targets[0], ast.Name) and x.targets[0].id == m.id]
+                        d = [x for x in ast.walk(fn.node) if isinstance(x, ast.Assign) and isinstance(x.targets[0], ast.Name) and x.targets[0].id == m.id]
                         m = d[0].value if len(d) == 1 else m
-                    mask_ok = isinstance(m, ast.Call) and call_name(m) == "isin" and norm(m.args[1]) == cv and norm(m.args[0]) == norm(val.args[1])
-                R.check(mask_ok, "R15.2", f, s, "a pixel keeps its label iff the label is in the closed set (np.where(np.isin(block, closed), block, 0))",
-                        f"filtered block is `{txt[:110]}`: labels outside the closed set can survive or be renamed", via="guard-shape")
-            # the view of the live array is not written
-            blk = [x for x in ast.walk(f.node) if isinstance(x, ast.Assign) and isinstance(x.targets[0], ast.Name) and "seg_data[" in norm(x.value)]
-            for b in blk:
-                nm = b.targets[0].id
-                st = [x for x in ast.walk(f.node) if isinstance(x, (ast.Assign, ast.AugAssign)) and any(isinstance(t, ast.Subscript) and norm(t.value) == nm for t in (x.targets if isinstance(x, ast.Assign) else [x.target]))]
-                R.check(not st, "R15.2", f, st[0] if st else b, "the chunk read from the live segmentation is not written in place", "", via="syntax")
+                    mask_ok = isinstance(m, ast.Call) and call_name(m) == "isin" and norm(m.args[1]) == closed and norm(m.args[0]) == norm(val.args[1])
+                R.check(mask_ok, "R15.2", fn, st, "a pixel keeps its label iff the label is in the closed set (np.where(np.isin(block, closed), block, 0))",
+                        f"filtered block is `{norm(val)[:110]}`: labels outside the closed set can survive or be renamed", via="guard-shape")
+                # the view of the live array is not written in place
+                blk = [x for x in ast.walk(fn.node) if isinstance(x, ast.Assign) and isinstance(x.targets[0], ast.Name) and isinstance(x.value, ast.Subscript) and "slices" in norm(x.value.slice)]
+                for b_ in blk:
+                    nm = b_.targets[0].id
+                    stores = [x for x in ast.walk(fn.node) if isinstance(x, (ast.Assign, ast.AugAssign)) and any(isinstance(t, ast.Subscript) and norm(t.value) == nm for t in (x.targets if isinstance(x, ast.Assign) else [x.target]))]
+                    R.check(not stores, "R15.2", fn, stores[0] if stores else b_, "the chunk read from the live segmentation is not written in place", "", via="syntax")
     # ---- R15.3 closure shape
     c = P.func_named(CLOSURE)
-    sel = c.params[1]
-    rets = [s for s in ast.walk(c.node) if isinstance(s, ast.Return)]
-    acc = None
-    for s in ast.walk(c.node):
-        if isinstance(s, ast.Assign) and isinstance(s.targets[0], ast.Name) and norm(s.value) in (f"set({sel})", f"set({sel}).copy()"):
-            acc = s.targets[0].id
-    R.check(acc is not None, "R15.3", c, c.node, "the result starts as a copy of the selection", "", via="syntax")
-    loops = [lp for lp in ast.walk(c.node) if isinstance(lp, ast.For)]
-    ok_loop = False
-    for lp in loops:
-        if norm(lp.iter) == sel and isinstance(lp.target, ast.Name):
-            v = lp.target.id
-            body = norm(ast.Module(lp.body, []))
-            straight = not any(isinstance(x, (ast.If, ast.Continue, ast.Break, ast.While, ast.Return)) for s in lp.body for x in ast.walk(s))
-            adds = f"nx.ancestors({c.params[0]}, {v})" in body and (f"{acc}.update(" in body or f"{acc} |=" in body)
-            ok_loop = straight and adds
-            R.check(straight, "R15.3", c, lp, "every selected node is processed unconditionally",
-                    "a branch / early exit inside the closure loop lets some selected node's ancestors be skipped", via="loop-shape")
-            R.check(adds, "R15.3", c, lp, "nx.ancestors of the node is added to the result", body[:100], via="loop-shape")
-    R.check(any(norm(lp.iter) == sel for lp in loops), "R15.3", c, c.node, "the closure loops over the whole selection", "", via="loop-shape")
-    R.check(bool(rets) and acc is not None and acc in norm(rets[-1].value), "R15.3", c, rets[-1] if rets else c.node, "the accumulated set is returned", "", via="syntax")
-    removes = [x for x in ast.walk(c.node) if isinstance(x, ast.Call) and call_name(x) in ("remove", "discard", "difference_update", "pop", "clear")]
+    gparam, sel = c.params[0], c.params[1]
+    anc = [x for x in ast.walk(c.node) if isinstance(x, ast.Call) and norm(x.func) in ("nx.ancestors", "networkx.ancestors", "ancestors")]
+    if not anc:
+        walks = [x for x in ast.walk(c.node) if isinstance(x, ast.Call) and call_name(x) in ("predecessors", "in_edges", "reverse")]
+        if walks:
+            R.undecided("R15.3", c, c.node, "the closure is computed by an explicit walk over predecessors", "shape not recognised: not decided")
+        else:
+            R.fail("R15.3", c, c.node, "the closure adds the ancestors of the selected nodes", "no ancestor computation found")
+    pmc = parent_map(c.node)
+    for call in anc:
+        node_arg = norm(call.args[1]) if len(call.args) > 1 else "?"
+        R.check(norm(call.args[0]) == gparam, "R15.3", c, call, "ancestors are taken in the given graph", norm(call)[:60], via="dataflow")
+        # the iteration that binds the node argument
+        it, conds, cur = None, [], call
+        while cur in pmc:
+            par = pmc[cur]
+            if isinstance(par, ast.For) and isinstance(par.target, ast.Name) and par.target.id == node_arg:
+                it = par.iter
+                idx = None
+                for i_, st in enumerate(par.body):
+                    if any(x is call for x in ast.walk(st)):
+                        idx = i_
+                early = [x for st in par.body[: (idx or 0) + 1] for x in ast.walk(st) if isinstance(x, (ast.Continue, ast.Break, ast.Return))]
+                conds += [norm(x) for x in early]
+                break
+            if isinstance(par, (ast.GeneratorExp, ast.ListComp, ast.SetComp)):
+                for g in par.generators:
+                    if isinstance(g.target, ast.Name) and g.target.id == node_arg:
+                        it = g.iter
+                        conds += [norm(x) for x in g.ifs]
+                if it is not None:
+                    break
+            if isinstance(par, ast.If):
+                conds.append(norm(par.test))
+            cur = par
+        R.check(it is not None and norm(it) in (sel, f"set({sel})", f"list({sel})"), "R15.3", c, call, "ancestors are taken for every node of the selection",
+                f"the node argument `{node_arg}` ranges over `{norm(it) if it is not None else '?'}`", via="loop-shape")
+        R.check(not conds, "R15.3", c, call, "every selected node is processed unconditionally",
+                f"conditions / early exits on the way: {conds}: some selected node's ancestors can be skipped", via="loop-shape")
+    src = norm(c.node)
+    starts = f"set({sel})" in src or f"{sel}.copy()" in src or f"{sel} |" in src or f"| {sel}" in src or f".union({sel}" in src
+    R.check(starts, "R15.3", c, c.node, "the result contains the selection itself", "", via="syntax")
+    removes = [x for x in ast.walk(c.node) if isinstance(x, ast.Call) and call_name(x) in ("remove", "discard", "difference_update", "pop", "clear", "difference", "intersection", "intersection_update")]
     R.check(not removes, "R15.3", c, removes[0] if removes else c.node, "nothing is removed from the closed set", "", via="syntax")
